@@ -158,8 +158,8 @@ def run(p, report, tier):
     check_subset_population(p, report, "R20.2")
     # ---------------- R20.3
     sa = p.get_class("SingleAnnotatorWrapper")
-    g = sa.methods.get("_get_order_preserving_s_query")
-    q = sa.methods.get("_query_annotators")
+    g = c01.method_by_role(sa, "_get_order_preserving_s_query", lambda n: c01._calls(n, {"rankdata"}))
+    q = c01.method_by_role(sa, "_query_annotators", lambda n: c01._calls(n, {"rand_argmax"}) and any(isinstance(x, (ast.For, ast.While)) for x in ast.walk(n)))
     if g is None or q is None:
         raise AnalysisError("SingleAnnotatorWrapper helpers vanished")
     gt = FuncTree(g.node)
@@ -193,11 +193,11 @@ def run(p, report, tier):
         raise AnalysisError("SingleAnnotatorWrapper.query(A_perf) vanished")
     qparams = q.params()
     if "annotator_utilities" not in qparams:
-        raise AnalysisError("_query_annotators(annotator_utilities) vanished")
+        raise AnalysisError("annotator_utilities parameter of the pair-selection helper vanished")
     pos = qparams.index("annotator_utilities") - (1 if qparams and qparams[0] == "self" else 0)
 
     def sink(call, pos=pos):
-        if c01.callname(call) != "_query_annotators":
+        if c01.callname(call) != q.name:
             return []
         out = [k.value for k in call.keywords if k.arg == "annotator_utilities"]
         if len(call.args) > pos:
